@@ -9,7 +9,8 @@ PROPERTY = "C13"
 LEVEL = "exploration"
 RULE = ("small multi-threaded programs of buffered mutators (setitem, delitem, update, setdefault, append, "
         "extend, insert, reset, clear; 2-3 threads x 1-2 ops, unique values) run inside one "
-        "Class.buffer_backend(capacity) context on {distinct files, one file through two objects, one "
+        "Class.buffer_backend(capacity) context on {distinct files, one file through two objects (also: one of them "
+        "empties the collection between two modifications through the other, every operation flushing), one "
         "object}, capacities {default, 0, one byte / one file too small so that a flush is forced inside "
         "another thread's operation window, exactly fitting}, both buffering strategies, dict and list; "
         "deterministic line-level scheduler with a full delay sweep per thread (+ PCT/random-walk schedules "
@@ -121,6 +122,21 @@ def make_prog(spec, i):
                 steps.append({"op": op, "h": ti, "path": [], "args": args})
             threads.append(steps)
         with_cr = False
+    emptied = not directed and i % 8 == 3
+    if emptied:
+        # two objects on one file, both loaded before the threads start: T0 modifies twice through its object, T1
+        # empties the collection through the other one, and the capacity forces every operation to flush - so T0's
+        # second operation has to pick up "the file is now empty" (an empty container is data, not "no data")
+        nthreads, nfiles = 2, 1
+        roots = [[0, 0], [1, 0]]
+        inits = [copy.deepcopy(base)]
+        topo = "emptied_by_other"
+        threads = [[], [{"op": "clear", "h": 1, "path": [], "args": []}]]
+        for si in range(2):
+            op = r.choice(DICT_OPS if kind == "dict" else LIST_OPS)
+            args = concgen.dict_op(r, op, 0, si, base) if kind == "dict" else concgen.list_op(r, op, 0, si, base)
+            threads[0].append({"op": op, "h": 0, "path": [], "args": args})
+        with_cr = True
     if not directed and topo in ("distinct_files", "one_file_two_objects") and r.random() < 0.35:
         # every thread constructs its own object inside the context, uses it and releases it before it ends: what it
         # buffered must reach the file when the context exits all the same
@@ -139,13 +155,19 @@ def make_prog(spec, i):
         cap = r.choice([None, 0, total, total + 1, total + 12, sizes[0] - 1, sizes[0] + 5, 2 * total])
         if directed:
             cap = sizes[0] + r.choice([sizes[1] // 2, sizes[1] - 1, 40])
+        if emptied:
+            cap = r.choice([0, 0, sizes[0] - 1])
     else:
         cap = r.choice([None, 0, 1, 1, 2, 1000])
+        if emptied:
+            cap = 0
     prog = {"cls": info.name, "init": inits, "files": nfiles, "roots": roots, "pre": [], "threads": threads,
             "buffered": {"cap": cap}}
     # some objects load before the threads start (first touch outside the threads)
     if r.random() < 0.4 and roots:
         prog["pre"] = [{"op": "len", "h": roots[0][0], "path": [], "args": []}]
+    if emptied:
+        prog["pre"] = [{"op": "len", "h": 0, "path": [], "args": []}, {"op": "len", "h": 1, "path": [], "args": []}]
     return prog, {"topology": topo, "cap": "default" if cap is None else ("zero" if cap == 0 else "small"),
                   "stratum": "with_clear_reset" if with_cr else "item_ops"}, r
 
